@@ -1,4 +1,5 @@
 import NurbsVerif.Model.Basis
+import NurbsVerif.Model.BasisDersOne
 import NurbsVerif.Model.Eval
 import NurbsVerif.Model.Grid
 import NurbsVerif.Driver.Parse
@@ -40,6 +41,12 @@ def handleBasic : List String → Option String
       let p ← p.toNat?; let U ← parseList us; let i ← i.toNat?; let u ← parseRat u
       if i + p + 1 ≥ U.length then return "ERR"
       return showRat (basisFunOne p (fn U) U.length i u)
+  | ["bdersone", p, us, i, u, d] => do
+      let p ← p.toNat?; let U ← parseList us; let i ← i.toNat?; let u ← parseRat u; let d ← d.toNat?
+      if i + p + 1 ≥ U.length then return "ERR"
+      -- inside the support the code indexes N[j] for j ≤ order: IndexError for order > degree
+      if d > p ∧ ¬ (u < fn U i ∨ fn U (i + p + 1) ≤ u) then return "ERR"
+      return showList (basisFunDersOne p (fn U) i u d)
   | ["bders", p, us, k, u, d] => do
       let p ← p.toNat?; let U ← parseList us; let k ← k.toNat?; let u ← parseRat u; let d ← d.toNat?
       if k < p ∨ k + p ≥ U.length ∨ d > p then return "ERR"
